@@ -56,6 +56,8 @@ type remoteRec struct {
 	Faults       []faultLog `json:"faults"`
 	Observations int64      `json:"observations"`
 	GrowthSteps  int64      `json:"local_growth_steps"`
+	StatusAhead  int64      `json:"observations_final_status_ahead_of_output"`
+	HeldTillDone bool       `json:"last_fault_held_until_remote_finished"`
 	RemoteSize   int64      `json:"remote_size"`
 	LocalSize    int64      `json:"local_size"`
 	RemoteState  int        `json:"remote_state"`
@@ -140,6 +142,26 @@ func cmdRemote(args []string) {
 				}
 			}
 		}
+		// at least one schedule whose last fault strikes while the LAST chunk is on its way: held until the remote unit
+		// has finished, it produces "final status mirrored before the tail of the output" (status ahead of output)
+		lastChunk := func(s schedule) bool { return len(s.Faults) > 0 && s.Faults[len(s.Faults)-1].When == maxWhen }
+		have := false
+		for _, s := range chosen {
+			have = have || lastChunk(s)
+		}
+		if !have && len(chosen) < *maxScen {
+			var c []schedule
+			for _, s := range all {
+				if lastChunk(s) && !used[s.key()] {
+					c = append(c, s)
+				}
+			}
+			if len(c) > 0 {
+				s := c[rng.Intn(len(c))]
+				used[s.key()] = true
+				chosen = append(chosen, s)
+			}
+		}
 		for _, i := range rng.Perm(len(all)) {
 			if len(chosen) >= *maxScen {
 				break
@@ -190,6 +212,7 @@ type scenario struct {
 	rec     remoteRec
 
 	localOut, remoteOut string
+	localDir            string
 	verified            int64 // bytes of the local copy already compared
 	obsMu               sync.Mutex
 	lastLocal           int64
@@ -222,6 +245,10 @@ func (sc *scenario) observe(where string) {
 		remote = nil
 	}
 	sc.rec.Observations++
+	// the interleaving "final status mirrored, tail of the output not yet": the two monitors are independent
+	if st, err := resd.ReadStatusFile(sc.localDir); err == nil && terminal(st.State) && int64(len(local)) < st.StdoutSize {
+		sc.rec.StatusAhead++
+	}
 	n := int64(len(local))
 	if n < sc.lastLocal {
 		sc.violated.Store(true)
@@ -365,7 +392,8 @@ func (sc *scenario) run() {
 		return
 	}
 	remoteDir := sc.c.UnitDir(remoteID)
-	sc.localOut = filepath.Join(sc.a.UnitDir(localID), "stdout")
+	sc.localDir = sc.a.UnitDir(localID)
+	sc.localOut = filepath.Join(sc.localDir, "stdout")
 	sc.remoteOut = filepath.Join(remoteDir, "stdout")
 	sc.lastGrowth.Store(time.Now().UnixNano())
 	stopObs := make(chan struct{})
@@ -444,7 +472,7 @@ func (sc *scenario) run() {
 		return s
 	}
 	lastRepair := time.Now()
-	for _, f := range sc.sched.Faults {
+	for fi, f := range sc.sched.Faults {
 		dl := time.Now().Add(120 * time.Second)
 		w := f.When
 		if w > n {
@@ -475,6 +503,24 @@ func (sc *scenario) run() {
 			time.Sleep(time.Duration(rng.Intn(900)) * time.Millisecond)
 		}
 		hold := time.Duration(500+rng.Intn(2500)) * time.Millisecond
+		// a fault on the last chunk is (mostly) held until the remote unit has finished: after the repair the status
+		// monitor needs one round trip, the stdout monitor a retry sleep and a new request - status ahead of output
+		tillDone := fi == len(sc.sched.Faults)-1 && w >= n && rng.Intn(5) != 0
+		sleepHold := func() {
+			time.Sleep(hold)
+			if !tillDone {
+				return
+			}
+			sc.rec.HeldTillDone = true
+			dl := time.Now().Add(60 * time.Second)
+			for time.Now().Before(dl) {
+				if st, err := resd.ReadStatusFile(remoteDir); err == nil && terminal(st.State) {
+					break
+				}
+				time.Sleep(10 * time.Millisecond)
+			}
+			time.Sleep(time.Duration(rng.Intn(400)) * time.Millisecond)
+		}
 		fl := faultLog{Kind: f.Kind, When: f.When, AtMs: time.Since(tStart).Milliseconds(), HoldMs: hold.Milliseconds(),
 			LocalAt: resd.FileSize(sc.localOut), RemoteAt: remoteSize()}
 		switch f.Kind {
@@ -486,13 +532,13 @@ func (sc *scenario) run() {
 			fl.Target = r.Name
 			r.Cut()
 			sc.observe("after cut")
-			time.Sleep(hold)
+			sleepHold()
 			r.Heal()
 		case "relay":
 			fl.Target = "b"
 			sc.b.Kill()
 			sc.observe("after relay kill")
-			time.Sleep(hold)
+			sleepHold()
 			if err := sc.b.Start(60 * time.Second); err != nil {
 				sc.fail("restart b: " + err.Error())
 				close(stopObs)
@@ -504,7 +550,7 @@ func (sc *scenario) run() {
 			fl.Target = "c"
 			sc.c.Kill()
 			sc.observe("after remote kill")
-			time.Sleep(hold)
+			sleepHold()
 			if err := sc.c.Start(60 * time.Second); err != nil {
 				sc.fail("restart c: " + err.Error())
 				close(stopObs)
@@ -592,6 +638,12 @@ func (sc *scenario) run() {
 	res.seen(sc.sched.key())
 	res.count("observations", int(sc.rec.Observations))
 	res.count("local_growth_steps", int(sc.rec.GrowthSteps))
+	if sc.rec.StatusAhead > 0 {
+		res.count("scenarios_final_status_ahead_of_output", 1)
+	}
+	if sc.rec.HeldTillDone {
+		res.count("scenarios_last_fault_held_until_remote_finished", 1)
+	}
 	res.sample(sc.rec, 6)
 	if sc.violated.Load() {
 		return
